@@ -66,6 +66,12 @@ ASSEMBLAGES = {"0": (0,), "1": (1,), "01": (0, 1), "10": (1, 0)}
 LOOP_STEPS = {1: (2, 3), 2: (2,), 3: (2,)}      # solver-loop lengths traced per grain count
 BULK_SIZES = {1: (2, 3), 2: (), 3: ()}        # numbers of minerals handed to update_all per grain count
 GR_VARIANTS = ("0", "10")                       # assemblages for which eval_rhs is traced with get_regime
+# integer literals > 3 of the traced glue functions (srcguard.literal_guard): the 9 / 10 of the state-vector
+# layout, the banded-Jacobian switch of __post_init__ (n_grains > 4632 -> lband = uband = 6000)
+GLUE_SIZE_LITERALS = {
+    "extract_vars": {9: 7, 10: 1}, "Mineral.update_orientations": {9: 1, 10: 1},
+    "Mineral.__post_init__": {6000: 2, 4632: 1},
+}
 
 
 # ---------------------------------------------------------------------------------------
@@ -1035,13 +1041,21 @@ def translations():
     rebinding = [(utils, "np", proxy), (pm, "np", proxy), (pm, "la", glue_la),
                  (pm, "_tensors", glue_tensors), (pm, "_core", glue_core), (pm, "_utils", glue_utils)]
     saved = [(mod, k, mod.__dict__[k]) for mod, k, _ in rebinding]
+    import srcguard
+    srcguard.literal_guard(utils.__file__, ["extract_vars", "apply_gbs"], GLUE_SIZE_LITERALS)
+    srcguard.literal_guard(pm.__file__, ["Mineral.update_orientations", "Mineral.__post_init__", "update_all"],
+                           GLUE_SIZE_LITERALS)
     try:
         for h, _ in quiet:          # "created Mineral ..." / "skipping ..." lines of every traced path
             h.setLevel(logging.CRITICAL)
         for mod, k, v in rebinding:
             mod.__dict__[k] = v
-        for nm in names:
-            tr.ensure(nm, {})
+        # a new module-level helper of pydrex.utils / pydrex.minerals called from the traced glue is not
+        # traced through silently (see srcguard.py)
+        with srcguard.UnlistedCallGuard(utils, ["extract_vars", "apply_gbs"]), \
+                srcguard.UnlistedCallGuard(pm, ["update_all"]):
+            for nm in names:
+                tr.ensure(nm, {})
     finally:
         for mod, k, v in saved:
             mod.__dict__[k] = v
